@@ -218,12 +218,13 @@ def r3_msm(ctx: Context) -> None:
         rn = g.nodes_of(r)[0]
         for decisions, form in path_forms(f, g, r.value, rn):
             n_paths += 1
+            form = _see_through_helpers(ctx.prog, f, form)
             v = str(nn.rat(form))
             std_taken = any(d.startswith("self._standardise_moments=true") for d in decisions)
             kind = "identity" if v in A_id else "inverse" if v in A_inv else "user" if v in A_user else None
             if kind is None:
-                opaque = [c_ for c_ in ast.walk(form) if isinstance(c_, ast.Call) and isinstance(c_.func, ast.Name) and any(
-                    isinstance(t, FuncInfo) for t in ctx.prog.resolve_call(f, c_)) and c_.func.id not in ("cast",)]
+                opaque = [c_ for c_ in ast.walk(form) if isinstance(c_, ast.Call) and (dotted(c_.func) or "").split(".")[-1] not in ("cast", "_moment_calculator") and any(
+                    isinstance(t, FuncInfo) and t.qualname != f.qualname for t in ctx.prog.resolve_call(f, c_))]
                 if opaque:
                     raise AnalysisError(f"{f.loc(r)}: the MSM value goes through the helper `{src(opaque[0].func)}`, which could not be read in place; cannot decide R3.msm")
                 ctx.fail("R3.msm", "MethodOfMomentsLoss.compute_loss_1d:return", f"on the path [{'; '.join(decisions)}] MSM returns `{v[:260]}`: neither g.g nor g.W.g with g = m(real) - mean_e m(sim_e) "
@@ -534,3 +535,52 @@ def dtype_rule(ctx: Context) -> None:
         ctx.fail("R6.dtype", f"{f.qualname.split(':')[1]}:inherited-dtype:{' '.join(src(node).split())[:50]}",
                  f"{what}: for integer or lower-precision input the value is silently truncated / rounded on assignment, so the result is no longer what the definition gives", f, node)
     ctx.ok("R6.dtype", "c07:scanned", f"{len(funcs)} functions: no computed value is stored into an array of inherited dtype")
+
+
+def _see_through_helpers(prog, f: FuncInfo, form: ast.expr, depth: int = 0) -> ast.expr:
+    """A call to a repository helper all of whose normal (non-raising) paths return one and the same expression of its parameters - e.g. a `_quadratic_form(g, W)`
+    that wraps `g.dot(W).dot(g)` in a try/except translating the error message - is read as that expression with the arguments substituted."""
+    if depth > 3:
+        return form
+    from ..util import _substitute, path_summaries
+
+    class T(ast.NodeTransformer):
+        def visit_Call(self, node: ast.Call):  # noqa: N802
+            self.generic_visit(node)
+            try:
+                ts = [t for t in prog.resolve_call(f, node) if isinstance(t, FuncInfo)]
+            except AnalysisError:
+                return node
+            if len(ts) != 1 or ts[0].qualname == f.qualname or any(isinstance(a, ast.Starred) for a in node.args) or any(k.arg is None for k in node.keywords):
+                return node
+            t = ts[0]
+            if any(isinstance(x, (ast.Yield, ast.YieldFrom)) for x in ast.walk(t.node)):
+                return node
+            try:
+                rets = [ps.ret for ps in path_summaries(t) if ps.ends == "return" and ps.ret is not None]
+            except AnalysisError:
+                return node
+            texts = {ast.unparse(r) for r in rets}
+            if len(texts) != 1:
+                return node
+            params = list(t.bound_params)
+            if len(node.args) > len(params):
+                return node
+            b = dict(zip(params, node.args))
+            for k in node.keywords:
+                if k.arg not in params or k.arg in b:
+                    return node
+                b[k.arg] = k.value
+            if set(params) - set(b):
+                return node
+            expr = rets[0]
+            if t.self_name and any(isinstance(x, ast.Name) and x.id == t.self_name for x in ast.walk(expr)):
+                recv = node.func.value if isinstance(node.func, ast.Attribute) else None
+                if recv is None:
+                    return node
+                expr = _substitute(expr, t.self_name, recv)
+            for p_, a in b.items():
+                expr = _substitute(expr, p_, a)
+            return _see_through_helpers(prog, f, expr, depth + 1)
+
+    return T().visit(ast.parse(ast.unparse(form), mode="eval").body)
